@@ -325,7 +325,7 @@ def definition(draw, o=None, root_kind="struct"):
 
 
 @st.composite
-def config(draw, ptrs=("uint8", "uint16", "uint32", "uint64"), compiled=None, align=None, flip=False):
+def config(draw, ptrs=("uint8", "uint16", "uint32", "uint64"), compiled=None, align=None, flip=False, grow=False):
     cfg = {
         "endian": draw(st.sampled_from(["<", ">", "<", ">", "!"])),
         "align": draw(st.booleans()) if align is None else align,
@@ -336,6 +336,9 @@ def config(draw, ptrs=("uint8", "uint16", "uint32", "uint64"), compiled=None, al
         # the definitions are loaded under ANOTHER byte order, which is switched to cfg["endian"] before anything is parsed
         # or dumped (byte order is configuration read at parse/dump time, also by already compiled readers: C05)
         cfg["load_endian"] = draw(st.sampled_from([e for e in "<>" if e != {"!": ">"}.get(cfg["endian"], cfg["endian"])] + (["!"] if cfg["endian"] == "<" else [])))
+    if (flip or grow) and draw(st.integers(0, 4)) == 0:
+        # Root gets an incremental history: declared without its last members, used, completed through add_field (libside.load)
+        cfg["grow"] = [draw(st.integers(0, 5)), draw(st.booleans())]
     return cfg
 
 
